@@ -596,7 +596,8 @@ impl G {
                     }
                     let struct_like = variants.len() == struct_like_at || self.rng.chance(1, 2);
                     let fs = if struct_like {
-                        let n = 1 + self.rng.below(5);
+                        // one struct-like variant in eight has braces but no fields at all
+                        let n = if !plain && self.rng.chance(1, 8) { 0 } else { 1 + self.rng.below(5) };
                         let collide = !plain && self.rng.chance(1, 10);
                         // the fields of a variant are renamed only by that variant's own rename_all
                         let (fs, rr) = self.fields(n, vra, Some(&tag), collide, plain);
